@@ -368,6 +368,15 @@ def copy_sources(f, local, depth=24, transparent=(), stop=(), F=None):
             elif rv["k"] == "agg":
                 if rv["ak"] == "adt":
                     out.add(("agg", "%s::%s" % (rv["adt"], rv["variant"])))
+                elif rv["ak"] == "tuple" and fields and fields[0].isdigit() and int(fields[0]) < len(rv["ops"]):
+                    # `(a, b).1`: the scrutinee tuple of a `match (x, y)` - project the operand
+                    o = rv["ops"][int(fields[0])]
+                    if o["k"] in ("copy", "move"):
+                        walk(o["p"]["l"], _fields_of(o["p"]) + fields[1:], d + 1)
+                    elif o["k"] == "const":
+                        out.add(("const", o.get("def") or o.get("v") or "?"))
+                    else:
+                        out.add(("agg", rv["ak"]))
                 else:
                     out.add(("agg", rv["ak"]))
             else:
